@@ -54,31 +54,32 @@ type procState struct {
 // world is one execution: a store that survives crashes and a sequence of
 // commander generations over it.
 type world struct {
-	w        *tlaio.Writer
-	store    *vstore.Store
-	gate     chan vstore.Arrival
-	rec      *recorder
-	reqs     map[string]Req
-	procs    map[string]*procState
-	gen      int
-	s        *sched.Sched
-	cmd      *command.Commander
-	locker   *command.DefaultLocker
-	refr     *command.Referencer
-	runDone  chan any
-	atGate   *vstore.Arrival
-	unGated  int               // logs handed to the batcher and not yet seen at the gate
-	byLog    map[string]string // "<gen>/<log id>" -> request that chained it
-	lastSeq  int
-	mu       sync.Mutex
-	dmu      sync.Mutex
-	free     bool
-	nStuck   int
-	nSkipped int
-	nDiverge int
-	closed   bool
-	flavour  int
-	survived bool
+	failLookup sync.Map // request -> true: its next lookup of an idempotency key fails
+	w          *tlaio.Writer
+	store      *vstore.Store
+	gate       chan vstore.Arrival
+	rec        *recorder
+	reqs       map[string]Req
+	procs      map[string]*procState
+	gen        int
+	s          *sched.Sched
+	cmd        *command.Commander
+	locker     *command.DefaultLocker
+	refr       *command.Referencer
+	runDone    chan any
+	atGate     *vstore.Arrival
+	unGated    int               // logs handed to the batcher and not yet seen at the gate
+	byLog      map[string]string // "<gen>/<log id>" -> request that chained it
+	lastSeq    int
+	mu         sync.Mutex
+	dmu        sync.Mutex
+	free       bool
+	nStuck     int
+	nSkipped   int
+	nDiverge   int
+	closed     bool
+	flavour    int
+	survived   bool
 }
 
 // errors a database driver may return from a failing InsertLogs: whatever the
@@ -94,7 +95,11 @@ var failureFlavours = []error{
 
 var flavourCounter int
 
-func seedLogs() []*ledger.ChainedLog {
+func seedLogs(withTx bool) []*ledger.ChainedLog {
+	if !withTx {
+		// a ledger whose history holds metadata entries only
+		return []*ledger.ChainedLog{ledger.NewSetMetadataOnAccountLog(ledger.Now(), "m", metadata.Metadata{"payer": "a"}).ChainLog(nil)}
+	}
 	tx0 := ledger.NewTransaction().WithPostings(ledger.NewPosting("world", "a", asset, big.NewInt(3))).WithIDUint64(0)
 	tx0.Metadata = metadata.Metadata{}
 	l0 := ledger.NewTransactionLog(tx0, map[string]metadata.Metadata{}).ChainLog(nil)
@@ -102,9 +107,13 @@ func seedLogs() []*ledger.ChainedLog {
 	return []*ledger.ChainedLog{l0, l1}
 }
 
-func newWorld(w *tlaio.Writer, reqs map[string]Req, gated bool) *world {
+func newWorld(w *tlaio.Writer, reqs map[string]Req, gated bool, seedTx bool) *world {
 	x := &world{w: w, store: vstore.New(), rec: &recorder{}, reqs: reqs, procs: map[string]*procState{}, byLog: map[string]string{}}
-	x.store.Seed(seedLogs()...)
+	x.store.Seed(seedLogs(seedTx)...)
+	x.store.FailKeyLookup = func(ctx context.Context) bool {
+		_, ok := x.failLookup.Load(sched.ProcOf(ctx))
+		return ok
+	}
 	if gated {
 		x.gate = make(chan vstore.Arrival, 8)
 		x.store.Gate = x.gate
